@@ -43,9 +43,13 @@ def gen(rng, tier):
         for _ in range(rng.randint(0, 3)):
             main.append(submit_op("A", fid, dict(id=fid, kind="work", dur=rng.choice([0, 0.01])), []))
             fid += 1
-        if rng.random() < 0.5:
+        if rng.random() < 0.6:
             main.append({"op": "wait_all"})
-            main.append({"op": "sleep", "d": rng.choice([0.01, 0.5, 12.0])})
+            if timeout and rng.random() < 0.6:
+                # workers have been idle for exactly their time-out when the saturating burst arrives
+                main.append({"op": "sleep", "d": timeout + rng.choice([0.0, 0.0, -0.001, 0.001])})
+            else:
+                main.append({"op": "sleep", "d": rng.choice([0.01, 0.5, 12.0])})
         if mode == "reusable" and rng.random() < 0.5:
             workers = rng.randint(1, 4)
             main.append({"op": "reusable", "ex": "A", "kw": {"max_workers": workers, "timeout": timeout or 10.0}})
